@@ -31,6 +31,18 @@ pub struct Case {
   /// trailing comment per emitted statement (index into TRAILING; 0 = none)
   #[serde(default)]
   pub trailing: Vec<u8>,
+  /// spelling of the executable fence per emitted statement: bit 0 marker (``` / ~~~), bits 1-2 tag (mech / mec / 🤖 / mech:hidden for the
+  /// unnamed program), bits 3-4 option map (none / {output: false} / {output: "no"} / {output: true}); 0 = ```mech as before.
+  /// All of them are executable code: `hidden` and `output` only say what a renderer shows
+  #[serde(default)]
+  pub styles: Vec<u8>,
+}
+
+fn fence_text(style: u8, name: Option<&str>, body: &str) -> String {
+  let m = if style & 1 == 0 { "```" } else { "~~~" };
+  let tag = match ((style >> 1) & 3, name) { (0, _) => "mech", (1, _) => "mec", (2, _) => "🤖", (_, None) => "mech:hidden", (_, Some(_)) => "mech" };
+  let opts = ["", "{output: false}", "{output: \"no\"}", "{output: true}"][((style >> 3) & 3) as usize];
+  match name { Some(n) => format!("{}{}:{}{}\n{}\n{}", m, tag, n, opts, body, m), None => format!("{}{}{}\n{}\n{}", m, tag, opts, body, m) }
 }
 
 /// fence names: case variants on purpose (names are case-sensitive)
@@ -113,16 +125,16 @@ impl Prop for C10 {
   fn budget(t: Tier) -> u32 { t.pick(3_000, 50_000) }
   fn strategy(_t: Tier, _k: &Known) -> BoxedStrategy<Case> {
     let choices = || proptest::collection::vec(0u32..100_000, 4..=40);
-    (proptest::collection::vec(choices(), 1..=3), proptest::collection::vec(0u8..6, 2), proptest::collection::vec((0u8..3, prop_oneof![Just(Place::Bare), Just(Place::Fence)]), 1..=14), proptest::collection::vec(prop_oneof![2 => Just(255u8), 5 => 0u8..26, 2 => 26u8..32, 5 => 32u8..56], 16), any::<bool>(), prop_oneof![3 => Just(0u8), 2 => 1u8..9], proptest::bool::weighted(0.1), proptest::collection::vec(prop_oneof![3 => Just(0u8), 2 => 1u8..6], 14))
-      .prop_map(|(programs, names, order, prose, title, error_in, tight, trailing)| {
+    (proptest::collection::vec(choices(), 1..=3), proptest::collection::vec(0u8..6, 2), proptest::collection::vec((0u8..3, prop_oneof![Just(Place::Bare), Just(Place::Fence)]), 1..=14), proptest::collection::vec(prop_oneof![2 => Just(255u8), 5 => 0u8..26, 2 => 26u8..32, 5 => 32u8..56], 16), any::<bool>(), prop_oneof![3 => Just(0u8), 2 => 1u8..9], proptest::bool::weighted(0.1), proptest::collection::vec(prop_oneof![3 => Just(0u8), 2 => 1u8..6], 14), proptest::collection::vec(prop_oneof![2 => Just(0u8), 3 => 0u8..32], 15))
+      .prop_map(|(programs, names, order, prose, title, error_in, tight, trailing, styles)| {
         let mut names = names; if names[0] == names[1] { names[1] = (names[1] + 1) % 6; }
-        Case { programs, names, order, prose, title, error_in, tight, trailing }
+        Case { programs, names, order, prose, title, error_in, tight, trailing, styles }
       }).boxed()
   }
   fn rule() -> &'static str {
     "case = 1-3 independent programs over the SAME variable names (one for the unnamed program, the others for named fences whose names \
      include case variants left/Left/LEFT and `Disabled`), their statements interleaved in document order, each placed as bare code or in \
-     a fence, with prose elements from a 56-element pool in between (paragraphs incl. code-looking ones, lists, quotes, thematic break, \
+     a fence (spelled with ``` or ~~~, tag mech / mec / 🤖 / mech:hidden, with or without an {output: …} option map — display options that leave the code executable), with prose elements from a 56-element pool in between (paragraphs incl. code-looking ones, lists, quotes, thematic break, \
      markdown table, python / plain / tilde / disabled / capitalised-tag fences containing conflicting definitions, `--` and `//` comments (also with code-looking text, `;` separators and inline markup, stand-alone and trailing a statement), section \
      headers) and an optional title; optionally an erroneous last statement in one named fence. Which pool entries are prose is fixed from the pinned tree (PROSE_BASELINE: 53 of 56 parse alone to prose elements only), not re-derived at run time. Oracle (metamorphic): main snapshot == interpreting the unnamed program's code alone; the set of \
      sub-interpreter snapshots == the set of per-name programs interpreted alone. Non-trivial = ≥2 prose elements next to code incl. a \
@@ -154,12 +166,14 @@ pub fn prose_screen(text: &str) -> bool {
 }
 
 /// document text, per-namespace code (index 0 = main), number of prose elements used, code-looking prose used?
-fn build_doc(c: &Case) -> (String, Vec<Vec<String>>, usize, bool, usize) {
+fn build_doc(c: &Case) -> (String, Vec<Vec<String>>, usize, bool, usize, usize) {
   let progs: Vec<Vec<String>> = c.programs.iter().map(|p| program_lines(p)).collect();
   let mut next = vec![0usize; progs.len()];
   let mut per_ns: Vec<Vec<String>> = vec![vec![]; progs.len()];
   let mut parts: Vec<String> = vec![];
   let (mut nprose, mut codeish, mut rejected) = (0, false, 0);
+  let mut first_fence: Vec<Option<usize>> = vec![None; progs.len()];
+  let mut styled = 0usize;
   if c.title { parts.push("A Document Title\n================".to_string()); }
   for (k, (pi, place)) in c.order.iter().enumerate() {
     let pi = (*pi as usize) % progs.len();
@@ -172,8 +186,9 @@ fn build_doc(c: &Case) -> (String, Vec<Vec<String>>, usize, bool, usize) {
     // a trailing comment on the statement's (last) line; the code-only reference is the statement without it
     let tr = c.trailing.get(k).copied().unwrap_or(0) as usize % TRAILING.len();
     let stmt = if tr != 0 && !stmt.contains('\n') { format!("{}{}", stmt, TRAILING[tr]) } else { stmt };
-    if pi == 0 { match place { Place::Bare => parts.push(stmt), Place::Fence => parts.push(format!("```mech\n{}\n```", stmt)) } }
-    else { parts.push(format!("```mech:{}\n{}\n```", NAMES[c.names[pi - 1] as usize % NAMES.len()], stmt)); }
+    let style = c.styles.get(k).copied().unwrap_or(0);
+    if pi == 0 { match place { Place::Bare => parts.push(stmt), Place::Fence => { if style != 0 { styled += 1; } parts.push(fence_text(style, None, &stmt)) } } }
+    else { if style != 0 { styled += 1; } if first_fence[pi].is_none() { first_fence[pi] = Some(parts.len()); } parts.push(fence_text(style, Some(NAMES[c.names[pi - 1] as usize % NAMES.len()]), &stmt)); }
   }
   // an erroneous statement in one named namespace: error_in = 1 + (namespace - 1) + 2 * kind; it is placed right after the first fence of that
   // namespace (so that later fences of the same name still have to see the earlier variables), or at the end if the namespace has none
@@ -187,15 +202,14 @@ fn build_doc(c: &Case) -> (String, Vec<Vec<String>>, usize, bool, usize) {
         2 => "broken<u8> := \"not a number\"".to_string(),
         _ => "brk := [1 2 3]\nbroken := brk[7]".to_string(),
       };
-      let fence = format!("```mech:{}\n{}\n```", name, body);
-      let marker = format!("```mech:{}\n", name);
-      match parts.iter().position(|p| p.starts_with(&marker)) { Some(i) => parts.insert(i + 1, fence), None => parts.push(fence) }
+      let fence = fence_text(c.styles.last().copied().unwrap_or(0), Some(name), &body);
+      match first_fence[pi] { Some(i) => parts.insert(i + 1, fence), None => parts.push(fence) }
       if (c.error_in - 1) / 2 == 3 { let at = if per_ns[pi].is_empty() { 0 } else { 1 }; per_ns[pi].insert(at, "brk := [1 2 3]".to_string()); }
     }
   }
   if let Some(pr) = c.prose.last() { if *pr != 255 { let text = PROSE[*pr as usize % PROSE.len()]; if prose_ok(text) { parts.push(text.to_string()); nprose += 1; } } }
   let sep = if c.tight { "\n" } else { "\n\n" };
-  (parts.join(sep), per_ns, nprose, codeish, rejected)
+  (parts.join(sep), per_ns, nprose, codeish, rejected, styled)
 }
 
 fn alone(lines: &[String]) -> Option<Snapshot> {
@@ -206,7 +220,8 @@ fn alone(lines: &[String]) -> Option<Snapshot> {
 
 fn check(c: &Case) -> Verdict {
   let mut v = Verdict::new();
-  let (doc, per_ns, nprose, codeish, rejected) = build_doc(c);
+  let (doc, per_ns, nprose, codeish, rejected, styled) = build_doc(c);
+  if styled > 0 { v.label("fence-spelling:other-than-```mech"); }
   if rejected > 0 { v.label("prose_rejected"); }
   if c.tight { v.label("tight-separation"); }
   if per_ns.iter().all(|p| p.is_empty()) { v.discard("no statement emitted"); return v; }
